@@ -13,7 +13,9 @@ import CanvasModel.Prelude
 * `itemize`      — text.ScriptItemizer (/repo/text/text.go:21-78) over abstract runes
                    (script code, embedding level, ZWJ/ZWNJ flag, replacement-char flag).
 * `indexOf`      — indexer.index (/repo/text.go:394-401).
-* `lineX0`, `stack` — horizontal alignment arithmetic and line stacking of ToText, generic scalar.
+* `alignLine`    — X of the spans of a line from their widths (indent, Right/Center shift), generic scalar.
+* CanvasModel/C16/Stack.lean (line stacking, vertical alignment, Heights, Bounds), CanvasModel/C16/Glue.lean
+  (glue adjustment, character-conservation verdict).
 -/
 namespace Canvas.C16
 
@@ -355,28 +357,24 @@ def indexGo (loc : Int) : Int → List Int → Option Int
 
 def indexOf (ix : List Int) (loc : Int) : Int := (indexGo loc 0 ix).getD (ix.length - 1)
 
-/-! ## (e) horizontal alignment, (f) line stacking — generic scalar -/
+/-! ## (e) horizontal placement of the spans of a line (ToText "build text spans of line" … "align by
+the width of the spans shown"); the vertical stacking is in CanvasModel/C16/Stack.lean -/
 
 inductive HAlign | left | right | center | justify
 deriving DecidableEq, Repr
 
-/-- x of the first span of line j: the spans are laid out from the indent (first line) and then
-shifted by `width - x` (half of it when centred), `x` = end of the last span, `tw` = width shown -/
-def lineX0 {α : Type} [Add α] [Sub α] [Div α] [OfNat α 0] [OfNat α 2] (h : HAlign) (width tw indent : α) (first : Bool) : α :=
+/-- `X: x; x += w` for every span -/
+def layoutFrom {α : Type} [Add α] : α → List α → List α × α
+  | x, [] => ([], x)
+  | x, w :: r => let q := layoutFrom (x + w) r; (x :: q.1, q.2)
+
+/-- X of every span of line j (logical order, before reorderSpans) from the span widths -/
+def alignLine {α : Type} [Add α] [Sub α] [Div α] [OfNat α 0] [OfNat α 2] (h : HAlign) (width indent : α) (first : Bool) (ws : List α) : List α :=
   let x0 : α := if first then 0 + indent else 0
+  let q := layoutFrom x0 ws
   match h with
-  | .right => x0 + (width - (x0 + tw))
-  | .center => x0 + (width - (x0 + tw)) / 2
-  | _ => x0
-
-/-- heights of one line after the lineSpacing scaling: (ascent, bottom) -/
-structure LH (α : Type) where
-  asc : α
-  bot : α
-
-/-- `line.y = y + ascent; y += ascent + bottom` — returns the baselines -/
-def stack {α : Type} [Add α] : α → List (LH α) → List α
-  | _, [] => []
-  | y, h :: r => (y + h.asc) :: stack (y + (h.asc + h.bot)) r
+  | .right => q.1.map (· + (width - q.2))
+  | .center => q.1.map (· + (width - q.2) / 2)
+  | _ => q.1
 
 end Canvas.C16
